@@ -124,6 +124,9 @@ def run(ctx, chk, tier="quick"):
         "zeta_interval INSERT, and column <-> generator agreement of the grid_time_flags INSERT."
     )
     chk.assumptions = ["get_true_interval_masks labels maximal runs (numpy cumsum labelling; leading-run case decided under C01.O3)"]
+    # every data interval reaches the interstorm classification: the loop over them is not cut short by its own body
+    from ..typestate import lazy_cursor_loops
+    lazy_cursor_loops(ctx, chk, "C04.O5", ("classify",), why="execute on the iterated cursor ends the loop over the data intervals after the first: later records get no flags and no interstorm intervals")
     f = ctx.func("classify.get_mystery_jump_mask")
     if len(f.params) != 2:
         chk.indeterminate("C04.O1", where_of(f, f.node), "signature changed")
